@@ -9,10 +9,18 @@ from ..pred import npred, conj, pred_fmt
 U = "sempler.utils."
 
 
+def head(node):
+    """normalised text of a construct; compound statements are named by their header line only"""
+    t = norm(node)
+    if isinstance(node, (ast.For, ast.While, ast.If, ast.With, ast.Try, ast.ClassDef)):
+        t = t.split("\n", 1)[0]
+    return t.replace("\n", " ")
+
+
 def fwhere(func, node=None, construct=None):
     node = node if node is not None else func.node
     w = {"file": func.module.relpath, "line": getattr(node, "lineno", func.node.lineno), "function": func.qname,
-         "construct": construct if construct is not None else (norm(node)[:200] if not isinstance(node, ast.FunctionDef) else "def " + func.name)}
+         "construct": construct if construct is not None else (head(node)[:200] if not isinstance(node, ast.FunctionDef) else "def " + func.name)}
     return w
 
 
@@ -47,6 +55,10 @@ def pattern_entries(prog, rep, entries, rule="PAT", not_charged=(), allow_raw=()
                 rep.unk(rule + ".entry", {"file": f.module.relpath, "line": line, "function": qq, "construct": msg}, msg)
         if bad_ret and lvl == PT.RAW:
             rep.bad(rule + ".result", fwhere(f), "result of %s carries raw weights (must be determined by the zero pattern)" % f.name)
+        elif bad_ret:
+            prov = ["%s:%s `%s`" % (x[0].rsplit(".", 1)[-1], x[1], x[2][:60]) for x in sorted(PT.prov_of(ret), key=str)[:2]] if ret is not None else []
+            rep.bad(rule + ".result", fwhere(f), "result of %s is computed by value-sensitive arithmetic on raw weights (sums / products / ordered comparisons of "
+                    "entries), not from the zero pattern%s" % (f.name, (": " + "; ".join(str(x) for x in prov)) if prov else ""))
         elif not bad_ret:
             rep.ok(rule + ".entry", fwhere(f), "decisions and result of %s(%s) depend on the weights only through their zero pattern "
                    "(result level %s)" % (f.name, param, PT.NAMES[lvl]))
